@@ -107,11 +107,19 @@ def repo_hash():
 
 
 def _gc_build_dirs(keep_hash):
+    """remove build dirs of other trees that have not been used for 2 hours (several checks / mutated copies
+    may be running concurrently, so recent ones are left alone)"""
     if not os.path.isdir(BUILD):
         return
+    now = time.time()
     for d in os.listdir(BUILD):
+        p = os.path.join(BUILD, d)
         if d.startswith("tree-") and d != "tree-" + keep_hash:
-            shutil.rmtree(os.path.join(BUILD, d), ignore_errors=True)
+            try:
+                if now - os.path.getmtime(p) > 2 * 3600:
+                    shutil.rmtree(p, ignore_errors=True)
+            except OSError:
+                pass
 
 
 def tree_dir():
@@ -119,6 +127,10 @@ def tree_dir():
     if not os.path.isdir(d):
         _gc_build_dirs(repo_hash())
         os.makedirs(d, exist_ok=True)
+    try:
+        os.utime(d, None)
+    except OSError:
+        pass
     return d
 
 
